@@ -1,7 +1,63 @@
+# C01: the service decoder survives every input - decided unit by unit (DESIGN 0.3 C01).
+#  * Teletext packet decoder (src/packet.c): every leaf parser and the dispatcher per packet class (vlib/props/_packet.py)
+#  * Closed Caption / XDS (src/caption.c, src/xds_demux.c): a selection of the C08 / C09 obligations - the same cbmc runs also check every
+#    array/pointer/overflow/shift/assert() of the units, which is what C01 asks for
+#  * export / rendering (src/exp-*.c, src/export.c): a selection of the C16 obligations (exact-size canvases and buffers)
+# quick grids = the instances measured decisive on the unchanged tree (<= ~150 s, <= 4 GB each, machine under load); the rest is thorough.
+import copy
 from vlib.runner import Ob
 from vlib.props._packet import packet_obs
 
 
+def _sel(obs, name, grid_filter=None, quick=None, rename=None):
+    """copy of obligation `name` from another property, optionally with a reduced grid (cross-module reuse: same harness, same contract)"""
+    for o in obs:
+        if o.name == name:
+            c = copy.copy(o); c.defines = dict(o.defines); c.flags = list(o.flags)
+            if grid_filter is not None:
+                c.grid = [g for g in o.grid if grid_filter(g)]
+            c.quick_grid = [g for g in (o.quick_grid if o.quick_grid is not None else o.grid) if grid_filter is None or grid_filter(g)] if quick is None else quick
+            if rename:
+                c.name = rename
+            c.grid = list(c.quick_grid)      # the full grids of these obligations are run under their own property (C08/C09/C16), not again here
+            return c
+    raise KeyError(name)
+
+
 def obligations(tier, seed):
     p = packet_obs()
-    return [p[k] for k in ("rows", "header", "header_badpage", "header_timefill", "addr_error", "mot", "pop", "x27", "ait", "btt", "mpt", "mpt_ex", "mip", "drcs", "pagelink_any", "lop_parity")]
+    P = lambda k, vals, key="PKTSEL": setattr(p[k], "quick_grid", [g for g in p[k].grid if g.get(key) in vals])
+    P("mot", (1, 9, 14, 20, 21, 24)); P("pop", (1, 4, 26)); P("x27", (0, 4, 6), "DESSEL"); P("ait", (1, 23)); P("lop_parity", (1, 25), "ROWSEL")
+    P("mpt", (1, 10, 20, 21)); P("mpt_ex", (1, 23, 24))
+    p["rows"].quick_grid = [dict(MAGN=1, PKTN=k) for k in (25, 29, 30, 31)]
+    # no verdict inside the quick budget on this machine (measured: 7-11 GB / > 600 s): thorough only, with a larger memory cap
+    for k in ("btt", "mip", "drcs", "addr_error", "x2829"):
+        p[k].tier = "thorough"; p[k].mem_gb = max(p[k].mem_gb, 14); p[k].timeout = max(p[k].timeout, 1500)
+    p["rows"].mem_gb = 12
+    obs = [p[k] for k in ("rows", "header", "header_badpage", "header_timefill", "addr_error", "mot", "pop", "x27", "ait", "btt", "mpt", "mpt_ex", "mip",
+                          "drcs", "x2829", "pagelink_any", "lop_parity")]
+    # ---- caption / XDS units -------------------------------------------------------------------------------
+    from vlib.props import C08, C09, C16
+    o8 = C08.obligations(tier, seed); o9 = C09.obligations(tier, seed); o16 = C16.obligations(tier, seed)
+    for name in ("seq_rollup_top_clamp", "seq_popon_col32"):
+        try:
+            obs.append(_sel(o8, name))
+        except KeyError:
+            pass
+    try:
+        inv = _sel(o8, "inv_step")
+        inv.quick_grid = (inv.quick_grid or inv.grid)[::3]; inv.grid = list(inv.quick_grid)   # every 3rd command class of the C08 quick grid (memory safety of one step from an arbitrary state)
+        obs.append(inv)
+    except KeyError:
+        pass
+    obs.append(_sel(o9, "xds_demux_step", quick=[g for g in [o for o in o9 if o.name == "xds_demux_step"][0].quick_grid if g.get("C1FIX") in ("0x41", "0x0F", "-0x41") and g.get("CURC", 0) in (0, "0")]))
+    obs.append(_sel(o9, "caption_xds_separator_step", quick=[g for g in [o for o in o9 if o.name == "caption_xds_separator_step"][0].quick_grid if g.get("C1FIX") in ("0x41", "0x0F") and g.get("CURC", 0) in (0, "0", 3, "3")]))
+    obs.append(_sel(o9, "caption_xds_decoder", quick=[o for o in o9 if o.name == "caption_xds_decoder"][0].quick_grid[:6]))
+    # ---- export / rendering ----------------------------------------------------------------------------------
+    for name, n in (("draw_cc_region", 2), ("text_table", 3), ("write_mem_alloc", 3)):
+        try:
+            src = [o for o in o16 if o.name == name][0]
+            obs.append(_sel(o16, name, quick=(src.quick_grid if src.quick_grid is not None else src.grid)[:n]))
+        except (KeyError, IndexError):
+            pass
+    return obs
